@@ -48,18 +48,19 @@ CTXS = ('return', 'assign', 'if', 'try', 'with', 'listcomp', 'dictcomp', 'genexp
         'nested_decoyarg', 'lambda_decoykw', 'lambda_subscript', 'comp_rebinds_args', 'comp_rebinds_kwargs',
         'nested_lambda', 'lambda_lambda',
         'nested_early', 'lambda_early', 'nested_listcomp', 'lambda_dictcomp', 'nested_listcomp_early', 'lambda_dictcomp_early',
-        'nested_genexp_early', 'lambda_setcomp_early')
-NESTED_CTXS = ('nested', 'lambda', 'nested2', 'nested_decoyarg', 'lambda_decoykw', 'lambda_subscript', 'nested_lambda', 'lambda_lambda',
+        'nested_genexp_early', 'lambda_setcomp_early', 'genexp_lazy', 'genexp_lazy_early', 'async_nested', 'async_nested_early')
+NESTED_CTXS = ('genexp', 'nested', 'lambda', 'nested2', 'nested_decoyarg', 'lambda_decoykw', 'lambda_subscript', 'nested_lambda', 'lambda_lambda',
                'nested_early', 'lambda_early', 'nested_listcomp', 'lambda_dictcomp', 'nested_listcomp_early', 'lambda_dictcomp_early',
-               'nested_genexp_early', 'lambda_setcomp_early')
+               'nested_genexp_early', 'lambda_setcomp_early', 'genexp_lazy', 'genexp_lazy_early', 'async_nested', 'async_nested_early')
 # in the *_early contexts the nested function is defined at the top of the body (before the taint statements) and called where
 # the forwarding statement stands: what it forwards is what the names denote when it runs
 HOIST = '\x00'
 ROUTES = ('global', 'closure', 'attr', 'self_method', 'self_attr', 'param', 'partial_inner',
           'shadow_posonly', 'shadow_lambda', 'shadow_nested', 'shadow_comp', 'local_rebind', 'missing', 'noncallable',
-          'classmethod_cls', 'closure_like_global', 'param_shadow_lambda', 'param_shadow_kwonly', 'self_shadow_nested', 'param_default')
+          'classmethod_cls', 'closure_like_global', 'param_shadow_lambda', 'param_shadow_kwonly', 'self_shadow_nested', 'param_default',
+          'self_attr_store')
 UNRESOLVABLE = ('shadow_posonly', 'shadow_lambda', 'shadow_nested', 'shadow_comp', 'local_rebind', 'missing', 'noncallable',
-                'param_shadow_lambda', 'param_shadow_kwonly', 'self_shadow_nested', 'param_default')
+                'param_shadow_lambda', 'param_shadow_kwonly', 'self_shadow_nested', 'param_default', 'self_attr_store')
 STAR_MODES = ('own', 'none', 'foreign', 'own+f')
 TAINTS = {
     # name: (target, statement template, what reaches the callee afterwards)
@@ -189,7 +190,7 @@ def normalise(prog):
         prog['deco'] = 'none'
     if prog['deco'] == 'autokwoargs' and not any(p.kind == POK and p.default is not None for p in outer):
         prog['deco'] = 'none'
-    if prog['route'] in ('self_method', 'self_attr', 'param', 'classmethod_cls', 'param_shadow_lambda', 'param_shadow_kwonly', 'self_shadow_nested', 'param_default') and prog['deco'] in ('kwoargs', 'autokwoargs', 'wraps', 'wrapping'):
+    if prog['route'] in ('self_method', 'self_attr', 'self_attr_store', 'param', 'classmethod_cls', 'param_shadow_lambda', 'param_shadow_kwonly', 'self_shadow_nested', 'param_default') and prog['deco'] in ('kwoargs', 'autokwoargs', 'wraps', 'wrapping'):
         prog['deco'] = 'none'
     if prog['route'] in ('self_method', 'self_shadow_nested'):
         # leaves become methods: only plain functions make sense there
@@ -397,6 +398,15 @@ def _stmt(ctx, expr, j):
         return '%s = [%s for {A} in (HA,)][0]\n' % (r, expr)
     if ctx == 'comp_rebinds_kwargs':
         return '%s = [%s for {K} in (dict(HK),)][0]\n' % (r, expr)
+    if ctx == 'genexp_lazy':
+        # a generator expression runs when it is consumed
+        return '_gen%d = (%s for _i in (0,))\n%s = list(_gen%d)[0]\n' % (j, expr, r, j)
+    if ctx == 'genexp_lazy_early':
+        return '_gen%d = (%s for _i in (0,))\n%s%s = list(_gen%d)[0]\n' % (j, expr, HOIST, r, j)
+    if ctx == 'async_nested':
+        return 'async def _co%d():\n    return %s\n%s = RUN(_co%d())\n' % (j, expr, r, j)
+    if ctx == 'async_nested_early':
+        return 'async def _co%d():\n    return %s\n%s%s = RUN(_co%d())\n' % (j, expr, HOIST, r, j)
     if ctx == 'nested_early':
         return 'def _inner%d():\n    return %s\n%s%s = _inner%d()\n' % (j, expr, HOIST, r, j)
     if ctx == 'lambda_early':
@@ -447,6 +457,7 @@ def render(prog):
            'def MUTATE(d):\n    d.update(HK)',
            '@contextlib.contextmanager\ndef CM():\n    yield',
            'def PASS(f):\n    return f',
+           'def RUN(c):\n    try:\n        c.send(None)\n    except StopIteration as e:\n        return e.value',
            'def WRAPPING(f):\n    @functools.wraps(f)\n    def _wrapping(*args, **kwargs):\n        return f(*args, **kwargs)\n    return _wrapping',
            'def ALT(alt_only, /, *, alt_kw):\n    LOG.append({"__fn__": "ALT"})\n    return "ALT"',
            'def OTHER(o1, o2=2, *, o3=3):\n    return "OTHER"',
@@ -462,7 +473,7 @@ def render(prog):
         n = 'L%d' % i
         callee_expr[i] = {
             'global': n, 'closure': '_c%d' % i, 'attr': 'NS.sub.%s' % n, 'self_method': 'self.%s' % n,
-            'self_attr': 'self.fn%d' % i, 'param': 'fn%d' % i, 'partial_inner': n,
+            'self_attr': 'self.fn%d' % i, 'self_attr_store': 'self.fn%d' % i, 'param': 'fn%d' % i, 'partial_inner': n,
             'shadow_posonly': n, 'shadow_lambda': n, 'shadow_nested': n, 'shadow_comp': n, 'local_rebind': n,
             'missing': 'MISSING%d' % i, 'noncallable': 'NONCALLABLE', 'classmethod_cls': 'cls.%s' % n,
             'closure_like_global': 'ALT' if i == 0 else '_c%d' % i,      # the closure variable is spelled like a module global
@@ -470,7 +481,7 @@ def render(prog):
         }[route]
     has_po = any(p.kind == PO for p in outer)
     first_kind = PO if has_po else POK
-    if route in ('self_method', 'self_attr', 'self_shadow_nested'):
+    if route in ('self_method', 'self_attr', 'self_attr_store', 'self_shadow_nested'):
         extra_first = [Par('self', first_kind)]
     elif route == 'classmethod_cls':
         extra_first = [Par('cls', first_kind)]
@@ -495,6 +506,9 @@ def render(prog):
             body.append((TAINTS.get(t['name']) or HARMLESS[t['name']])[1].format(**fmt) + '\n')
     if route == 'local_rebind':
         body.append(''.join('L%d = ALT\n' % i for i in range(len(leaves))))
+    if route == 'self_attr_store':
+        # the function itself replaces the attribute it then calls: what it holds while the signature is retrieved says nothing
+        body.append(''.join('self.fn%d = ALT\n' % i for i in range(len(leaves))))
     if prog.get('mention'):
         e0 = callee_expr[prog['calls'][0]['to']]
         if prog['mention'] == 'base' and '.' in e0:
@@ -566,7 +580,7 @@ def render(prog):
         src += 'class K(object):\n' + _indent(''.join(leaf_srcs)) + _indent(wdef) + 'TARGET = K().w\nWFUNC = K.__dict__["w"]\n'
         if route == 'classmethod_cls':
             src += 'WFUNC = WFUNC.__func__\n'
-    elif route == 'self_attr':
+    elif route in ('self_attr', 'self_attr_store'):
         src += ''.join(leaf_srcs)
         init = 'def __init__(self):\n' + ''.join('    self.fn%d = L%d\n' % (i, i) for i in range(len(leaves)))
         src += 'class K(object):\n' + _indent(init) + _indent(wdef) + 'TARGET = K().w\nWFUNC = K.__dict__["w"]\n'
